@@ -96,7 +96,13 @@ class Var(Aggregation):
     def _compute_result(self, x, x2, n):
         result = (x2 / n) - (x / n) ** 2
         if self.ddof != 0:
-            result = result * n / (n - self.ddof)
+            dof = n - self.ddof
+            result = result * n / dof
+            # as in pandas: undefined without more than ddof observations
+            if hasattr(result, 'where'):
+                result = result.where(dof > 0)
+            elif not dof > 0:
+                result = np.nan
         return result
 
     def on_new(self, acc, new):
@@ -560,7 +566,13 @@ class GroupbyVar(GroupbyAggregation):
     def _compute_result(self, x, x2, n):
         result = (x2 / n) - (x / n) ** 2
         if self.ddof != 0:
-            result = result * n / (n - self.ddof)
+            dof = n - self.ddof
+            result = result * n / dof
+            # as in pandas: undefined without more than ddof observations
+            if hasattr(result, 'where'):
+                result = result.where(dof > 0)
+            elif not dof > 0:
+                result = np.nan
         return result
 
     def on_new(self, acc, new, grouper=None):
